@@ -414,6 +414,18 @@ def c10_family(tag, quick):
                 "steps": [{"a": "connect", "must": True}, {"a": "closeConn", "g": "C", "ctxMs": 2000, "wait": True}, {"a": "sleep", "ms": 100},
                           {"a": "sendMeta", "g": "A1", "tag": 35, "ctxMs": 3000, "wait": True},
                           {"a": "closeConn", "g": "A1", "ctxMs": 3000, "wait": True}] + tail})
+    # a write that passed the connection's send guard is still inside the transport (held at a gate) when Close is called: whatever
+    # happens to it, it must not reach the broker after the Disconnect
+    for kind, call in (("UpstreamCall", {"a": "call", "g": "P1", "tag": 37, "ctxMs": 3000}),
+                       ("UpstreamMetadata", {"a": "sendMeta", "g": "P1", "tag": 38, "ctxMs": 3000}),
+                       ("UpstreamChunk", {"a": "flush", "g": "P1", "obj": "U1", "ctxMs": 3000})):
+        pre = [{"a": "write", "g": "W", "obj": "U1", "id": "A", "pts": [[2, 4]], "wait": True}] if kind == "UpstreamChunk" else []
+        scs.append({"id": "%s/writeAcrossClose/%s" % (tag, kind), "kind": "iscp", "conn": {},
+                    "steps": base() + pre + [{"a": "rule", "rule": {"on": kind, "do": "holdWrite", "gate": "hw", "nth": 1}}, call,
+                                             {"a": "await", "ev": "Fault", "match": {"do": "holdWrite", "on": kind}, "ms": 2000, "must": True},
+                                             {"a": "closeConn", "g": "C", "ctxMs": 2500}, {"a": "sleep", "ms": 150},
+                                             {"a": "release", "gate": "hw"}, {"a": "join", "obj": "C"}, {"a": "join", "obj": "P1"}, {"a": "sleep", "ms": 100}]
+                             + after_conn_calls() + tail})
     # two overlapping Close calls on one stream: the first one's close request is still unanswered when the second call is made
     scs.append({"id": tag + "/overlappingStreamClose", "kind": "iscp", "conn": {},
                 "steps": [{"a": "holdHandler", "mode": "DownClosed", "n": 1, "gate": "hd"}, {"a": "holdHandler", "mode": "UpClosed", "n": 1, "gate": "hd"}]
